@@ -89,6 +89,18 @@ CLAIMS["C07"] = (
     TRUSTED + "std is deterministic apart from RandomState; six sites carry a one-line reviewed reason in the rule file.",
     "DESIGN.md §4 C07")
 
+CLAIMS["C15"] = (
+    "static analysis: reserved-table extraction and membership of every builtin identifier the exporters emit; "
+    "THIR value-origin slices of every declaration name to NameMap or a raw IR read; shape of NameMap::build's guards",
+    "Decides name hygiene structurally: the reserved tables are well formed and contain every builtin the exporter "
+    "itself prints (112 HLSL intrinsic names, scalar and object type names, generated MSL names); every declaration "
+    "name position of both exporters is classified by provenance (NameMap / generated / raw IR name) and raw positions "
+    "are reported; NameMap::build accepts a name only after a successful insert into the scope's used-name set seeded "
+    "with all reserved names, keeps unique names verbatim, and renames locals away from every other local and global. "
+    "Does not decide alpha-equivalence of outputs.",
+    TRUSTED + "MSL library names are emitted qualified (metal::, helper::).",
+    "DESIGN.md §4 C15")
+
 NOT_YET = "rules for this property are not built yet in this round (see DESIGN.md §10 build order); no claim is made"
 
 
